@@ -775,6 +775,7 @@ def r4_r5_copies(ctx: Context, rule4: str = "C04.R4", rule5: str = "C04.R5") -> 
             stored: Set[str] = set()
             alias_stores: List[Tuple[str, ast.AST]] = []
             value_shares: List[Tuple[str, ast.AST, ast.AST]] = []
+            whole_shares: List[Tuple[str, ast.AST]] = []
             for n in ast.walk(fn):
                 if isinstance(n, ast.Assign):
                     for t in n.targets:
@@ -789,6 +790,20 @@ def r4_r5_copies(ctx: Context, rule4: str = "C04.R4", rule5: str = "C04.R5") -> 
                 if isinstance(n, ast.Call) and isinstance(n.func, ast.Attribute) and isinstance(n.func.value, ast.Name) \
                         and n.func.value.id == "instance":
                     stored |= _fields_written_by_method(cls, n.func.attr)
+                # instance.F.update(...) / .extend(...) / .add(...): the fresh container made by __init__ is filled
+                if isinstance(n, ast.Call) and isinstance(n.func, ast.Attribute) and n.func.attr in ("update", "extend", "add", "append") \
+                        and isinstance(n.func.value, ast.Attribute) and isinstance(n.func.value.value, ast.Name) and n.func.value.value.id == "instance":
+                    f = mangle(cname, n.func.value.attr)
+                    stored.add(f)
+                    if n.func.attr == "update" and n.args:
+                        a0 = n.args[0]
+                        shares = is_self_attr(a0) and mangle(cname, a0.attr) == f
+                        if isinstance(a0, (ast.GeneratorExp, ast.ListComp, ast.DictComp)) and len(a0.generators) == 1 \
+                                and isinstance(a0.generators[0].target, ast.Tuple) and len(a0.generators[0].target.elts) == 2:
+                            val = a0.value if isinstance(a0, ast.DictComp) else (a0.elt.elts[1] if isinstance(a0.elt, ast.Tuple) and len(a0.elt.elts) == 2 else None)
+                            shares = val is not None and isinstance(val, ast.Name) and norm(val) == norm(a0.generators[0].target.elts[1])
+                        if shares:
+                            whole_shares.append((f, n))
             for f, v in fields.items():
                 if f in IGNORED_FIELDS:
                     continue
@@ -860,6 +875,8 @@ def r4_r5_copies(ctx: Context, rule4: str = "C04.R4", rule5: str = "C04.R5") -> 
                         shallow = norm(v)
                     if shallow is None:
                         continue
+                    whole_shares.append((f, n))
+                for f, n in whole_shares:
                     mutated = _values_mutated_in_place(cls, f)
                     key = f"{cname}.__copy__|values of {f} shared"
                     if mutated is not None:
